@@ -116,12 +116,15 @@ def huge_case(k, col):
     shim.install('UTC')
     size = 0xfffff800 + [5000, 1, 2048, 0xfffff800 + 1][k % 4]
     case = {'huge': k, 'size': size}
-    col.case(case, True, ['huge-file'])
+    unlink = (k // 4) % 2 == 1          # variant: the ISO9660 name is removed again, only the UDF name is left
+    col.case(case, True, ['huge-file'] + (['huge-file-iso-name-unlinked'] if unlink else []))
     try:
         iso = pycdlib.PyCdlib()
         iso.new(interchange_level=3, udf='2.60')
         iso.add_fp(PatternSource(3 + k, size), size, '/BIG.;1', udf_path='/big')
         iso.add_fp(io.BytesIO(b'z' * 3000), 3000, '/Z.;1', udf_path='/z')
+        if unlink:
+            iso.rm_hard_link(iso_path='/BIG.;1')
         out = SparseFile()
         iso.write_fp(out, blocksize=1 << 20)
         iso.close()
@@ -156,9 +159,9 @@ def huge_case(k, col):
 
 def shard(seed, tier, shard_no, nshards):
     res = _engine_shard(seed, tier, shard_no, nshards)
-    if (tier == 'quick' and shard_no == 1) or (tier == 'thorough' and shard_no < 4):
+    if (tier == 'quick' and shard_no in (1, 2)) or (tier == 'thorough' and shard_no < 8):
         col = Collector()
-        huge_case(seed + shard_no, col)
+        huge_case(seed + shard_no + (3 if (tier == 'quick' and shard_no == 2) else 0), col)
         r2 = col.result()
         res['evaluations'] += r2['evaluations']
         res['nontrivial'] |= r2['nontrivial']
